@@ -136,6 +136,10 @@ impl Runner for SubprocessRunner {
                         OutputExitStatus::Unknown
                     }
                 } else if kind == ErrorKind::TimedOut {
+                    // the execution is aborted: do not leave the shell running
+                    // (it would carry on with the test in the background)
+                    let _ = process.kill();
+                    let _ = process.wait();
                     OutputExitStatus::Timeout(testcase.config.timeout.unwrap_or_default())
                 } else {
                     OutputExitStatus::Unknown
